@@ -43,6 +43,7 @@ def axv(args, timeout=600, check=True, env=None, stdin=None):
     """Runs the harness binary; returns (returncode, stdout)."""
     e = dict(os.environ)
     e.setdefault("RUST_BACKTRACE", "0")
+    e.setdefault("AXV_KNOWN_PANICS", known_panics_file())
     if env:
         e.update(env)
     try:
@@ -272,7 +273,7 @@ def report_known(c, prop):
         wd = os.path.join(WORK, "witness-%s-%s" % (prop, f["id"]))
         try:
             p = subprocess.run([AXV, "probe", "--dir", wd, "--timeout", "30"], stdin=open(w), stdout=subprocess.PIPE,
-                               stderr=subprocess.DEVNULL, text=True, timeout=120)
+                               stderr=subprocess.DEVNULL, text=True, timeout=120, env=dict(os.environ, AXV_KNOWN_PANICS=known_panics_file()))
             out = p.stdout
         except subprocess.TimeoutExpired:
             out = "HANG"
@@ -282,3 +283,24 @@ def report_known(c, prop):
         else:
             c.notes.append("recorded finding %s no longer reproduces with its witness (stale entry?)" % f["id"])
             log("STALE-FINDING %s" % f["id"])
+
+
+def known_panics_file():
+    """Writes the panic signatures of the recorded findings where the harness reads them (AXV_KNOWN_PANICS)."""
+    p = os.path.join(WORK, "known_panics.txt")
+    os.makedirs(WORK, exist_ok=True)
+    sigs = []
+    for f in load_known():
+        if f["status"] == "known":
+            sigs += f.get("panic_sigs", [])
+    text = "\n".join(sorted(set(sigs))) + "\n"
+    try:
+        if open(p).read() == text:
+            return p
+    except OSError:
+        pass
+    tmp = p + ".%d" % os.getpid()
+    with open(tmp, "w") as fh:
+        fh.write(text)
+    os.replace(tmp, p)      # atomic: concurrent readers never see a partial file
+    return p
